@@ -52,3 +52,20 @@ Proof.
   intros Hm H x. rewrite (land_byte x m Hm).
   apply (sweepZ (fun y => P (Z.land y m)) 256 H). apply Z.mod_pos_bound. lia.
 Qed.
+
+Lemma sweep_byte (P : Z -> bool) :
+  forallb P (map Z.of_nat (seq 0 256)) = true -> forall r, 0 <= r <= 255 -> P r = true.
+Proof.
+  intros H r Hr. apply (sweepZ P 256 H).
+  change (Z.of_nat 256) with 256. lia.
+Qed.
+
+Lemma sweep_byteN (P : N -> bool) :
+  forallb P (map N.of_nat (seq 0 256)) = true -> forall r, (r < 256)%N -> P r = true.
+Proof.
+  intros H r Hr. apply (sweepN P 256 H). change (N.of_nat 256) with 256%N. exact Hr.
+Qed.
+
+(* derive range facts from a boolean sweep *)
+Lemma range_of_bool lo hi v : (lo <=? v) && (v <=? hi) = true -> lo <= v <= hi.
+Proof. intros H. apply andb_true_iff in H. destruct H as [A B]. apply Z.leb_le in A. apply Z.leb_le in B. lia. Qed.
